@@ -1,6 +1,7 @@
 import Engeom.Driver.Proto
 import Engeom.Driver.Curve
 import Engeom.Model.Search
+import Engeom.Model.Hull
 
 namespace DrvC15
 open P
@@ -31,6 +32,12 @@ def handle (op : String) (args : List String) : Option String :=
       let pts ← list v2
       let r := farthestPair pts
       pure (Out.join [Out.n r.1.1, Out.n r.1.2, Out.f (Float.sqrt r.2)])).run args
+  | "hull.pivot" => (do
+      let pts ← list v2; let start ← n; let sd ← v2; let endIdx ← opt n; let ccw ← b; let r ← f
+      let stop := match endIdx with | some e => PivotEnd.onIndex e | none => PivotEnd.onRepeat
+      pure (match ballPivot pts start sd stop (if ccw then AngleDir.ccw else AngleDir.cw) r with
+        | none => "err"
+        | some (idx, cs) => Out.join ["ok", Out.list Out.n idx, Out.list Out.v2 cs])).run args
   | _ => none
 
 end DrvC15
